@@ -214,4 +214,5 @@ func main() {
 	genQuoteFn(repo, out)
 	genMtreeLine(repo, out)
 	genArchPkgver(repo, out)
+	genTriggersFn(repo, out)
 }
